@@ -160,6 +160,9 @@ func (pr Pairing) AssertFinalExponentiationIsOne(a *GTEl) {
 
 	nine := big.NewInt(9)
 	residueWitness := pr.Ext12.FromTower([12]*baseEl{res[0], res[1], res[2], res[3], res[4], res[5], res[6], res[7], res[8], res[9], res[10], res[11]})
+	// the residue witness is hinted: it must be invertible (non-zero), otherwise an
+	// all-zero hint satisfies the check below for any x
+	pr.Ext12.Inverse(residueWitness)
 
 	// constrain cubicNonResiduePower to be in Fp6
 	// that is: a100=a101=a110=a111=a120=a121=0
